@@ -173,9 +173,22 @@ pub async fn run(args: &Args, rep: &mut Reporter) {
                             }
                         };
                         let want_root = tree_of(&leaves[..keep_len]).root().unwrap();
-                        let expect_accept = keep.is_some() && proof.root.0 == want_root.0 && proof.length == keep_len;
-                        // patch
+                        let base_ok = keep.is_some() && proof.root.0 == want_root.0 && proof.length == keep_len;
+                        // patch: optionally re-supplies the records the rewind discards (what a merging
+                        // client sends), then fresh events
+                        let resupply = (mix >> 9) % 2 == 0;
                         let mut patch = vec![];
+                        if resupply && keep.is_some() {
+                            let base_len = n - suffix.len();
+                            for x in &suffix[keep_len - base_len..] {
+                                let name = ALPHABET[*x as usize].to_string();
+                                let rec = match which {
+                                    Which::Account => EventRecord::encode_event(&AccountEvent::RenameAccount(name)).await,
+                                    _ => EventRecord::encode_event(&WriteEvent::SetVaultName(name)).await,
+                                };
+                                patch.push(rec.expect("encode"));
+                            }
+                        }
                         for j in 0..plen {
                             fresh += 1;
                             // mostly fresh events, sometimes a letter of the alphabet (equal hash to existing events)
@@ -189,6 +202,11 @@ pub async fn run(args: &Args, rep: &mut Reporter) {
                             patch.push(rec);
                         }
                         let patch_commits: Vec<[u8; 32]> = patch.iter().map(|r| r.commit().0).collect();
+                        // a rewind may only discard what the patch brings back (the sender merged against
+                        // those records); anything else was appended by another client since
+                        let discarded_resupplied = leaves[keep_len..].iter().all(|c| patch_commits.contains(c));
+                        let expect_accept = base_ok && discarded_resupplied;
+                        rep.count(if keep_len < n && discarded_resupplied { "rewind_resupplies_discarded" } else if keep_len < n { "rewind_would_drop_records" } else { "no_records_discarded" }, 1);
                         let req = PatchRequest { log_type: which.log_type(), commit, proof, patch };
                         sched.reset_device(0);
                         let client = w.devices[0].bridge.client.clone();
@@ -203,12 +221,12 @@ pub async fn run(args: &Args, rep: &mut Reporter) {
                         };
                         let tname = if target == 0 { "none" } else if target > n { "absent" } else if keep_len == n { "head" } else { "inside" };
                         let mut h = Fnv::new();
-                        h.str(which.name()).bytes(suffix).u64(target as u64).u64(pi as u64).u64(plen as u64).str(sname);
+                        h.str(which.name()).bytes(suffix).u64(target as u64).u64(pi as u64).u64(plen as u64).u64(resupply as u64).str(sname);
                         rep.case(h.finish(), true);
                         rep.count(&format!("log:{}", which.name()), 1);
                         rep.count(&format!("target:{tname}"), 1);
                         rep.count(&format!("proof:{pkind}"), 1);
-                        let ctx = json!({"job": "c07patch", "server": sname, "log": which.name(), "server_suffix": suffix, "base_len": n - suffix.len(), "rewind_target_index": if target == 0 || target > n { None } else { Some(target - 1) }, "rewind_target": tname, "proof": pkind, "patch_len": plen});
+                        let ctx = json!({"job": "c07patch", "server": sname, "log": which.name(), "server_suffix": suffix, "base_len": n - suffix.len(), "rewind_target_index": if target == 0 || target > n { None } else { Some(target - 1) }, "rewind_target": tname, "proof": pkind, "patch_len": plen, "resupply": resupply});
                         let sig = format!("C07:patch:{sname}:{}", which.name());
                         let a_target: Vec<[u8; 32]> = after.get(&log_id).map(|v| v.iter().map(|r| r.commit).collect()).unwrap_or_default();
                         let b_target = before.get(&log_id).cloned().unwrap_or_default();
@@ -236,7 +254,8 @@ pub async fn run(args: &Args, rep: &mut Reporter) {
                             let mut want: Vec<[u8; 32]> = leaves[..keep_len].to_vec();
                             want.extend(patch_commits.iter().copied());
                             if !expect_accept {
-                                rep.violation(&format!("{sig}:accepted_on_wrong_base:{pkind}"), &format!("a patch whose proof ({pkind}) is not the head of the log it rewinds to was accepted"), ctx.clone());
+                                let why = if base_ok { "drops_records_not_resupplied".to_string() } else { pkind.to_string() };
+                                rep.violation(&format!("{sig}:accepted_on_wrong_base:{why}"), &format!("a patch was accepted although {}", if base_ok { "the rewind discards records that the patch does not bring back (events another client appended after the sender looked)".to_string() } else { format!("its proof ({pkind}) is not the head of the log it rewinds to") }), ctx.clone());
                             } else if a_target != want {
                                 rep.violation(&format!("{sig}:accepted_but_log_wrong"), "after an accepted patch the log is not the rewound prefix followed by the patch", ctx.clone());
                             } else {
